@@ -28,8 +28,8 @@ CONSTANTS NF,          \* number of listener functions
           BadRm,       \* targets on which a Remove of a not-registered (target, fn) is attempted
           NShards, Shard,
           JoinedXoBroken   \* TRUE = the pinned tree: exec_once on a _JoinedListener raises AttributeError (see DoExecOnce)
-VARIABLES st, last
-vars == <<st, last>>
+VARIABLES st, last, prev      \* last = label and expected result of the step just taken, prev = the state it was taken from
+vars == <<st, last, prev>>    \* (both hidden by VIEW: they do not multiply states)
 Fns == 1..NF
 Classes == 1..4
 Insts == 1..2
@@ -176,6 +176,7 @@ StylesFull == BOOLEAN \X BOOLEAN \X BOOLEAN \X BOOLEAN
 NoOpt == <<FALSE, FALSE, FALSE, FALSE>>
 Step(a, t, f, ins, sty, m, res) ==
   /\ st' = res.st
+  /\ prev' = st
   /\ last' = [a |-> a, t |-> t, f |-> f, ins |-> ins, prop |-> sty[1], once |-> sty[2], named |-> sty[3],
               retval |-> sty[4], m |-> m, ret |-> res.ret]
 TargetExists(s, t) == IF t < 10 THEN Exists(s, t) ELSE s.inst[t - 10].cls # 0
@@ -204,7 +205,7 @@ Update == \E dst \in Insts, src \in Insts, op \in BOOLEAN :
                  /\ dst # src /\ ~st.upd /\ st.inst[dst].cls # 0 /\ st.inst[src].cls # 0
                  /\ st.inst[dst].join = 0 /\ st.inst[src].join = 0
                  /\ Step("Update", 10 + dst, src, op, NoOpt, "", DoUpdate(st, dst, src, op))
-Init == st = InitSt /\ last = [a |-> "init"]
+Init == st = InitSt /\ last = [a |-> "init"] /\ prev = InitSt
 Next == Listen \/ Remove \/ RemoveBad \/ CreateSubclass \/ NewInstance \/ Dispatch \/ ExecOnce \/ Update
 Spec == Init /\ [][Next]_vars
 View == st
@@ -224,6 +225,9 @@ B2N(b) == IF b THEN 1 ELSE 0
 ShardOK == st = InitSt => ((last'.t * 4 + last'.f + 2 * B2N(last'.ins) + B2N(last'.once)) % NShards) = Shard
 EmitShard == ShardOK /\ Emit
 InitEmit == Init /\ PrintT(ToJson([init |-> st]))
+\* simulation mode (deep sampled walks): an INVARIANT is evaluated on the states of the behaviour being generated, in order
+\* (TLC evaluates it on every candidate successor of the action it picked; prev tells which candidate was taken)
+SimEmit == PrintT(ToJson([lvl |-> TLCGet("level"), from |-> prev, act |-> last, to |-> st, obs |-> Obs(st)]))
 \* ================================================================ properties (one per clause of C28)
 IsSet(q) == \A i, j \in 1..Len(q) : i # j => q[i] # q[j]
 UpdFns(s, k) == UNION {Range(s.log[i].fns) : i \in {j \in 1..Len(s.log) : s.log[j].k = "upd" /\ s.log[j].t = 10 + k}}
